@@ -556,6 +556,26 @@ def run(ctx):
             okd, why = False, f"raises {e.exc_name}"
         r7.check(okd, f"decode_stream[{desc}]", "returns text", ds.loc(), why_fail=why)
     rules.append(r7)
+    # ------------------------------------------------------------------ R8
+    r8 = Rule("C18", "C18.R8", "each validator wrapper reads the process result through the fields it has", floor=1,
+              necessary="a wrapper that unpacks the result object as a tuple raises TypeError instead of delivering the verdict")
+    from ..unpack import unpack_obligations
+    n_u = unpack_obligations(ctx, r8, "C18.R8", only=lambda fi: fi.module.name.startswith("pyxform.validators"), label="validator result")
+    # both wrappers read the same result class: the fields they read exist on it
+    pr = repo.cls("pyxform.validators.util:PopenResult")
+    fields = {t.attr for x in walk_own(pr.methods["__init__"].node) if isinstance(x, ast.Assign | ast.AnnAssign) for t in (x.targets if isinstance(x, ast.Assign) else [x.target])
+              if isinstance(t, ast.Attribute) and isinstance(t.value, ast.Name) and t.value.id == "self"}
+    for modname in ("pyxform.validators.odk_validate", "pyxform.validators.enketo_validate"):
+        cx = repo.find_func(f"{modname}:check_xform")
+        if cx is None:
+            r8.fail(f"{modname}:check_xform", "the validator wrapper exists (anchor)", modname)
+            continue
+        res_names = {t.id for x in walk_own(cx.node) if isinstance(x, ast.Assign) and isinstance(x.value, ast.Call) and call_name(x.value) == "_call_validator" for t in x.targets if isinstance(t, ast.Name)}
+        reads = {n.attr for n in walk_own(cx.node) if isinstance(n, ast.Attribute) and isinstance(n.value, ast.Name) and n.value.id in res_names}
+        unpacked = any(isinstance(x, ast.Assign) and isinstance(x.value, ast.Call) and call_name(x.value) == "_call_validator" and isinstance(x.targets[0], ast.Tuple | ast.List) for x in walk_own(cx.node))
+        r8.check(not unpacked and bool(res_names) and reads <= fields and {"return_code", "timeout"} <= reads, f"{modname}:check_xform", f"reads the validator's result through its fields {sorted(fields)}", cx.loc(),
+                 why_fail=("unpacks the result object" if unpacked else f"reads {sorted(reads)}"))
+    rules.append(r8)
     return rules
 
 
